@@ -30,6 +30,13 @@ for d in sorted(glob.glob('/verif/seeded/retired/C*-*')):
 if extra:
     for pf in sorted(glob.glob(extra + '/C*/*/patch.diff')):
         n = 'x-' + '-'.join(pf.split('/')[-3:-1]); jobs.append(('refactor', n, pf.split('/')[-3], pf))
+xseeds = None
+if '--extra-seeds' in args:
+    i = args.index('--extra-seeds'); xseeds = args[i+1]; del args[i:i+2]
+    only = args
+    jobs = []
+    for pf in sorted(glob.glob(xseeds + '/C*/*/patch.diff')):
+        n = 'x-' + '-'.join(pf.split('/')[-3:-1]); jobs.append(('seed', n, pf.split('/')[-3], pf))
 if only:
     jobs = [j for j in jobs if allp and True or j[2] in only] if not allp else jobs
     if allp: props = only
@@ -56,6 +63,8 @@ with ThreadPoolExecutor(14) as ex:
             print(kind, name, err); bad += 1; continue
         if kind == 'seed' and target not in fired:
             print('SEED NOT REPORTED by', target, ':', name, 'fired:', sorted(fired)); bad += 1
+        elif kind == 'seed' and xseeds:
+            print('seed reported:', name, sorted(fired))
         if kind == 'refactor' and fired:
             print('FALSE ALARM', name, sorted(fired)); bad += 1
             for p, ls in fired.items():
